@@ -22,6 +22,12 @@ Fixpoint sassoc {A} (l : list (str * A)) (k : str) : option A :=
 Definition content_of (l : list (str * str)) : str -> str :=
   fun k => match sassoc l k with Some c => c | None => [] end.
 Definition sset_of (l : list str) : str -> bool := fun k => smem k l.
+(* templates by name: (name, kind is remote, found, parses); anything else is an unknown builtin name *)
+Definition tinfo_of (l : list (str * (bool * bool * bool))) : str -> tinfo :=
+  fun k => match sassoc l k with
+           | Some (r, f, p) => {| ti_kind := if r then TRemote else TBuiltin; ti_found := f; ti_parses := p |}
+           | None => {| ti_kind := TBuiltin; ti_found := false; ti_parses := true |}
+           end.
 Definition rx_of (valid : bool) (l : list str) : rx :=
   if valid then RxOk (fun s => smem s l) else RxBad.
 Definition orx_of (set valid : bool) (l : list str) : option rx :=
